@@ -1,13 +1,17 @@
 #!/bin/bash
 # usage: tools/run_against.sh <patch.diff> <C13|C14> [quick|thorough]
-# Applies a change to /repo's working tree, runs the registered check, undoes the change.
+# Applies a change to /repo's working tree, runs the property's check against it, undoes the
+# change. Evidence and replay files of such runs go to a scratch directory, not to
+# /verif/evidence (which must only ever describe the tree as it is).
 set -u
 patch=$(readlink -f "$1"); prop=$2; tier=${3:-quick}
 cd /verif
 if [ -n "$(git -C /repo status --porcelain --untracked-files=no)" ]; then echo "ERROR /repo working tree is not clean"; exit 2; fi
-trap 'git -C /repo checkout -- . ' EXIT
+out=/verif/work/against-$$; mkdir -p "$out"; cp known_findings.json "$out/" 2>/dev/null
+trap 'git -C /repo checkout -- . ; rm -rf "$out"' EXIT
 git -C /repo apply "$patch" || { echo "ERROR patch does not apply"; exit 2; }
-out=$(./check "$prop" "$tier" 2>&1); rc=$?
-echo "$out" | grep -E "^(violation|VIOLATION|KNOWN|ERROR|runs=)" | cut -c1-260
+./check build >/dev/null || { echo "ERROR harness build failed with the change applied"; echo "exit=2"; exit 2; }
+res=$(/verif/target/debug/sim run "$prop" "$tier" --release-bin /verif/target/release/sim --out "$out" 2>&1); rc=$?
+echo "$res" | grep -E "^(violation|VIOLATION|KNOWN|ERROR|runs=)" | cut -c1-260
 echo "exit=$rc"
 exit $rc
